@@ -44,9 +44,16 @@ type image struct {
 	Layers   []string
 }
 
+// dates shown by a build: org.opencontainers.image.created of every image manifest (index order) and of the index
+type dates struct {
+	Arch  []int64
+	Index []int64 // one element, or none when the index carries no such annotation
+}
+
 type buildResult struct {
 	Members []string // names of the output tarball's members, in order
 	Images  []image  // per index entry: config and layer member names
+	Dates   dates
 	Cell    cell
 	Cmd     string
 	Arts    []artifact
@@ -204,7 +211,7 @@ func (e *env) run(c cell) (res buildResult) {
 			}
 			b, ok := members[strings.TrimPrefix(d, "sha256:")+".tar.gz"] // layers
 			return b, ok
-		}, add, &res.Images); err != nil {
+		}, add, &res.Images, &res.Dates); err != nil {
 			res.Err = "output tarball: " + err.Error()
 			return res
 		}
@@ -236,7 +243,7 @@ func (e *env) run(c cell) (res buildResult) {
 			b, err := os.ReadFile(filepath.Join(out, "blobs", "sha256", strings.TrimPrefix(d, "sha256:")))
 			return b, err == nil
 		}
-		if err := indexRoles(idx, blob, add, nil); err != nil {
+		if err := indexRoles(idx, blob, add, nil, &res.Dates); err != nil {
 			res.Err = "layout: " + err.Error()
 			return res
 		}
@@ -319,7 +326,15 @@ func readTar(p string) (map[string][]byte, []string, error) {
 
 // indexRoles walks index -> per-architecture manifest -> config, layers and
 // reports the sha256 of the bytes actually found under each role.
-func indexRoles(index []byte, blob func(digest string) ([]byte, bool), add func(role, sum string), images *[]image) error {
+func createdOf(ann map[string]string) (int64, bool) {
+	t, err := time.Parse(time.RFC3339, ann["org.opencontainers.image.created"])
+	if err != nil {
+		return 0, false
+	}
+	return t.Unix(), true
+}
+
+func indexRoles(index []byte, blob func(digest string) ([]byte, bool), add func(role, sum string), images *[]image, dts *dates) error {
 	if index == nil {
 		return fmt.Errorf("no index.json")
 	}
@@ -328,9 +343,13 @@ func indexRoles(index []byte, blob func(digest string) ([]byte, bool), add func(
 			Digest   string
 			Platform struct{ Architecture, Variant string }
 		} `json:"manifests"`
+		Annotations map[string]string `json:"annotations"`
 	}
 	if err := json.Unmarshal(index, &ix); err != nil {
 		return err
+	}
+	if t, ok := createdOf(ix.Annotations); ok && dts != nil {
+		dts.Index = []int64{t}
 	}
 	// leaves first (layers, config, manifest, then the index), so that the first
 	// differing artifact is the most specific one
@@ -341,11 +360,20 @@ func indexRoles(index []byte, blob func(digest string) ([]byte, bool), add func(
 			return fmt.Errorf("manifest %s (%s) not found", m.Digest, arch)
 		}
 		var im struct {
-			Config struct{ Digest string }
-			Layers []struct{ Digest string }
+			Config      struct{ Digest string }
+			Layers      []struct{ Digest string }
+			Annotations map[string]string `json:"annotations"`
 		}
 		if err := json.Unmarshal(mb, &im); err != nil {
 			return err
+		}
+		if dts != nil {
+			if t, ok := createdOf(im.Annotations); ok {
+				dts.Arch = append(dts.Arch, t)
+			} else {
+				dts.Index = nil // an image without the annotation: nothing to compare the index date with
+				dts = nil
+			}
 		}
 		img := image{Manifest: m.Digest, Config: im.Config.Digest}
 		for _, l := range im.Layers {
